@@ -10,7 +10,7 @@ callee in an operation family. For every forwarder whose own name is in family F
   R3 projection forwarders take the right tuple component: div <- div_rem(..).0, rem <- div_rem(..).1.
 Only resolved callee identity and operand provenance are inspected.
 """
-from .. import mir
+from .. import mir, flow
 from ..common import Instance, norm_id, load_table
 
 PRE = ("checked_", "wrapping_", "saturating_", "overflowing_", "widening_", "carrying_", "borrowing_",
@@ -256,3 +256,77 @@ def _ops(rv):
     if k == "agg":
         return list(rv[4])
     return []
+
+
+# ---------------------------------------------------------------------------------------------
+# Operand order through closures and helpers (Checked<T>, map/and_then chains)
+
+
+class FamPolicy(flow.Policy):
+    """Records, for every call of a non-commutative family member, which parameters of the enclosing
+    function its receiver and its argument come from; propagated through closures and helpers."""
+    propagate_kinds = ("fam0", "fam1")
+
+    def filter_event(self, kind, labels, info):
+        return frozenset(l for l in labels if l.startswith("@"))
+
+    def call_hook(self, engine, view, bb, term, argvals, callee_ids):
+        if _neutral_callee(term) or len(argvals) < 2:
+            return ()
+        name = mir.callee_name(term)
+        fam = family(mir.last_seg(name)) or family(mir.last_seg(mir.callee_decl(term)))
+        if fam not in NONCOMMUTATIVE:
+            return ()
+        info = {"what": "famcall:%s" % fam, "span": term["s"], "callee": name, "family": fam}
+        return (("fam0", flow.v_flat(argvals[0]), dict(info)), ("fam1", flow.v_flat(argvals[1]), dict(info)))
+
+
+def run_deep(facts, report, config):
+    pol = FamPolicy()
+    eng = flow.Engine(facts, pol)
+    events = eng.run_all(collect=True)
+    for b in facts.fn_bodies():
+        if b["kind"] == "Closure":
+            continue
+        own = family(b.get("name"))
+        if own not in NONCOMMUTATIVE:
+            continue
+        view = eng.view(b["id"])
+        if view.argc < 2:
+            continue
+        # only bodies that reach the family call through closures / helpers (the direct ones are judged above)
+        has_closure = any(s[0] == "a" and s[2][0] == "agg" and s[2][1] == "closure" for bb in b["blocks"] for s in bb["stmts"])
+        if not has_closure:
+            continue
+        sinks = {}
+        for e in events.get(b["id"], []):
+            if e.kind in ("fam0", "fam1") and e.via:
+                fam = e.info.get("family")
+                ok = {own} | COMPAT.get(own, set())
+                if fam not in ok:
+                    continue
+                if not (e.info.get("body") or "").startswith(b["id"] + "::{closure"):
+                    continue      # only the family call made by this function's own closures
+                sinks.setdefault(e.sink.replace("fam0", "fam").replace("fam1", "fam"), {})[e.kind] = (e.labels, e.info)
+        for sink, d in sorted(sinks.items()):
+            if "fam0" not in d or "fam1" not in d:
+                continue
+            p0 = {int(l[1:].split(".")[0].split("#")[0]) for l in d["fam0"][0]}
+            p1 = {int(l[1:].split(".")[0].split("#")[0]) for l in d["fam1"][0]}
+            report.count("deep_forwarders")
+            key = "c15.deep|%s|%s" % (norm_id(b["id"]), norm_id(d["fam0"][1].get("callee") or ""))
+            detail = {"forwarder": b["id"], "callee": d["fam0"][1].get("callee"), "receiver_params": sorted(p0),
+                      "argument_params": sorted(p1)}
+            if p0 == {2} and p1 == {1}:
+                report.add(Instance(key, "c15.deep", "violation",
+                                    "`%s` reaches `%s` (through closures) with its operands swapped: the callee's receiver comes "
+                                    "from the second operand and its argument from the first" % (b.get("name"), d["fam0"][1].get("callee")),
+                                    d["fam0"][1].get("span"), detail), config)
+            elif p0 == p1 and len(p0) == 1:
+                report.add(Instance(key, "c15.deep", "violation",
+                                    "`%s` reaches `%s` (through closures) with both operands taken from parameter _%d" % (
+                                        b.get("name"), d["fam0"][1].get("callee"), list(p0)[0]), d["fam0"][1].get("span"), detail), config)
+            else:
+                report.add(Instance(key, "c15.deep", "ok",
+                                    "auto: operands reach the family callee in order (receiver from %s, argument from %s)" % (
+                                        sorted(p0), sorted(p1)), d["fam0"][1].get("span"), detail), config)
